@@ -54,6 +54,7 @@ pub fn golden_history(ps: u64, num_pages: usize) -> HistoryCase {
             TxSpec { kind: TxKind::Commit, ops: t2 },
             TxSpec { kind: TxKind::Commit, ops: t3 },
         ],
+        dance: 0,
     }
 }
 
